@@ -10,7 +10,10 @@ RULE = ('cases = generated G-SEL spec with 1-3 design-variable nodes (continuous
         'conditional nodes, optionally LINKED) x encoder x create flag x vectors whose DV entries are drawn inside, on '
         'and far outside the domain (negative and too large indices, non-integers, bounds +/- 10, +/- inf); oracle = clamp '
         'model: an existing node stores clamp(value) and the corrected vector reports it, an absent node is inactive at '
-        'the canonical value, set_des_var_value on a graph clamps the same way; non-trivial = a clamped value on a '
+        'the canonical value, set_des_var_value on a graph clamps the same way; every architecture handed out keeps the '
+        'values it received while later vectors are decoded and while a copy of it is given other values; in 1 of 4 cases '
+        'a baseline value is set on the design-space graph before the processor is created (must not leak, must not '
+        'change); non-trivial = a clamped value on a '
         'conditionally existing node; distinct by sha1(spec, encoder, vectors)')
 BUDGET = {'quick': 300, 'thorough': 6000}
 
@@ -29,7 +32,9 @@ def _case(draw, tier):
         spec['edges'].append([draw(st.sampled_from(specs.gen_nodes(spec))), 'dvx'])
     picks = draw(st.lists(st.tuples(st.integers(0, 10**6), st.sampled_from(DISC_VALUES), st.sampled_from(CONT_OFFSETS)),
                           min_size=4, max_size=10))
-    return {'spec': spec, 'enc': draw(st.sampled_from(['COMPLETE', 'FAST'])), 'picks': [list(p) for p in picks]}
+    # baseline: a value is set on the design-space graph itself before the processor is created (1 in 4)
+    return {'spec': spec, 'enc': draw(st.sampled_from(['COMPLETE', 'FAST'])), 'picks': [list(p) for p in picks],
+            'baseline': draw(st.sampled_from([None, None, None, 0, 1]))}
 
 
 def strategy(tier):
@@ -56,7 +61,20 @@ def check_case(case):
         ref_empty = len(refsel.Model(spec).feasible_archs(arch_max=2000)) == 0
     except refsel.TooLarge:
         ref_empty = False
-    obs = observe(case, vectors=[])
+    baseline = {}
+
+    def set_baseline(b_):
+        # values on the design-space graph itself must neither leak into decoded architectures nor be changed by decodes
+        if case.get('baseline') is None:
+            return
+        for name, nd in sorted(spec['nodes'].items()):
+            if nd['k'] == 'dv' and b_.node[name] in b_.dsg.graph.nodes:
+                v = (case['baseline'] % nd['opts']) if 'opts' in nd else nd['bounds'][case['baseline'] % 2]
+                b_.dsg.set_des_var_value(b_.node[name], v)
+                baseline[name] = b_.dsg.des_var_value(b_.node[name])
+    obs = observe(case, vectors=[], before_processor=set_baseline)
+    if baseline:
+        res.classes.append('baseline_on_design_space_graph')
     if obs.build_exc is not None:
         res.classes.append('construct_failed_not_judged_here')
         return res
@@ -71,6 +89,7 @@ def check_case(case):
                 linked[m] = sorted(mm for mm in con['on'])
     clamped_on_conditional = False
     n_eval = 0
+    kept = []   # (x, instance, {node name: value stored at decode time})
     for seed, dval, ccode in case['picks']:
         x = []
         st_ = seed
@@ -129,6 +148,8 @@ def check_case(case):
                                                                           f'(node {m["node"]} in instance)', data=d0))
             # every existing dv node has an in-domain value
             if inst is not None:
+                kept.append((list(x), inst, {name: inst.des_var_value(b.node[name]) for name, nd in spec['nodes'].items()
+                                             if nd['k'] == 'dv' and name in names}))
                 for name, nd in spec['nodes'].items():
                     if nd['k'] == 'dv' and name in names:
                         val = inst.des_var_value(b.node[name])
@@ -142,6 +163,32 @@ def check_case(case):
                                                'all_members': linked.get(name)}))
             if len(res.violations) > 40:
                 break
+    # the architectures handed out earlier still hold the values they received; the design-space graph its baseline
+    for x, inst, stored in kept:
+        now = {name: inst.des_var_value(b.node[name]) for name in stored}
+        if now != stored:
+            name = [n for n in stored if now[n] != stored[n]][0]
+            res.add(viol('stored_value_changed_later', f'architecture decoded from x={x}: node {name} held '
+                                                       f'{stored[name]} at decode time and {now[name]} after the later '
+                                                       f'decodes', data={'enc': enc, 'node': name}))
+            break
+    if baseline:
+        now = {name: b.dsg.des_var_value(b.node[name]) for name in baseline}
+        if now != baseline:
+            res.add(viol('design_space_graph_value_changed', f'baseline {baseline} -> {now} after decoding',
+                         data={'enc': enc}))
+    # a copy of a decoded architecture is independent of it
+    if kept:
+        x, inst, stored = kept[0]
+        cp = inst.copy()
+        for name in stored:
+            nd = spec['nodes'][name]
+            cp.set_des_var_value(b.node[name], (nd['opts']-1) if 'opts' in nd else nd['bounds'][1])
+            cp.set_des_var_value(b.node[name], 0 if 'opts' in nd else nd['bounds'][0])
+        now = {name: inst.des_var_value(b.node[name]) for name in stored}
+        if now != stored:
+            res.add(viol('value_set_on_copy_changed_original', f'architecture decoded from x={x}: {stored} -> {now}',
+                         data={'enc': enc}))
     # direct setting on a graph
     g = b.dsg.copy()
     for name, nd in spec['nodes'].items():
